@@ -548,6 +548,9 @@ class Blockwise(ArrayExpr):
             if ind is None:
                 # Literal argument
                 new_args.extend([arr, ind])
+            elif not isinstance(arr, ArrayExpr):
+                # Per-block literals are keyed by block position: can't be shuffled
+                return None
             elif shuffle_ind in ind:
                 # Find the axis in this input that corresponds to shuffle_ind
                 input_axis = ind.index(shuffle_ind)
@@ -652,6 +655,10 @@ class Blockwise(ArrayExpr):
 
                 if arg_ind is None:
                     new_args.extend([arg, arg_ind])
+                elif not isinstance(arg, ArrayExpr):
+                    # Per-block literals (ArraySliceDep, ArrayValuesDep, ...) are
+                    # keyed by block position and can't be sliced
+                    return None
                 else:
                     arg_slices = []
                     for dim_idx in arg_ind:
